@@ -159,6 +159,7 @@ static void mode_honour(void){
     if(ch==2&&vc_chance(&r,1,8)&&k>2){ int nfc= fc==1?2:(fc==2?1:1+(int)vc_below(&r,2)); pending_old= fc; fc=nfc; opus_encoder_ctl(e,OPUS_SET_FORCE_CHANNELS(fc)); audio_since_change=0; changes++; }
     if(!expert&&vc_chance(&r,1,6)) fidx=vc_below(&r,9);
     int fs= expert?vk_frame_samples(Fs,expert-1):vk_frame_samples(Fs,fidx); int want=fs; int sub=fs; if(expert&&vc_chance(&r,1,3)){ int bigger=vk_frame_samples(Fs,8); if(bigger>fs) sub=bigger; }
+    if(expert>1&&vc_chance(&r,1,8)){ int shorter=vk_frame_samples(Fs,(int)vc_below(&r,expert-1)); vs_fill(&g,in,shorter); int l2=opus_encode_float(e,in,shorter,pk,1500); if(l2>=0){ vc_viol("honour:short-buffer-accepted","expert duration %d samples, %d supplied: encode returned %d",want,shorter,l2); break; } vc_count("honour_short_buffer_refused",1); }
     vs_fill(&g,in,sub); int len=opus_encode_float(e,in,sub,pk,1500); vc_count("honour_packets",1); if(len<=0){ vc_viol("honour:encode-failed","encode returned %d",len); break; }
     rfc_pkt m; rfc_parse(pk,len,0,&m); if(!m.valid){ vc_viol("honour:invalid-packet","encoder output rejected by the RFC model"); break; }
     int dur=m.count*rfc_spf(pk[0],Fs); if(dur!=want){ vc_viol("honour:duration","packet announces %d samples, requested %d (expert %d, buffer %d, Fs %d)",dur,want,expert,sub,Fs); break; }
@@ -181,7 +182,33 @@ static void mode_honour(void){
   opus_encoder_destroy(e);
 }
 
+/* ---------------------------------------------------------------- mshonour: multistream / projection encoders honour the frame duration and low-delay settings */
+static void mode_mshonour(void){
+  vc_rng r; vc_case_rng(&r,31); int err; int Fs=VC_PICK(&r,vk_rates), app=VC_PICK(&r,vk_apps); static const int fams[4]={0,1,255,3}; int fam=VC_PICK(&r,fams); int ch;
+  if(fam==0) ch=vc_range(&r,1,2); else if(fam==1) ch=vc_range(&r,1,8); else if(fam==255) ch=vc_range(&r,1,6); else { int o=vc_range(&r,1,2); ch=(o+1)*(o+1)+(vc_chance(&r,1,3)?2:0); }
+  int S=0,C=0; unsigned char map[255]; OpusMSEncoder *me=NULL; OpusProjectionEncoder *pe=NULL;
+  if(fam==3) pe=opus_projection_ambisonics_encoder_create(Fs,ch,3,&S,&C,app,&err); else me=opus_multistream_surround_encoder_create(Fs,ch,fam,&S,&C,map,app,&err); if(!me&&!pe){ vc_viol("mshonour:create","family %d channels %d: %d",fam,ch,err); return; }
+#define MSH_CTL(...) (me?opus_multistream_encoder_ctl(me,__VA_ARGS__):opus_projection_encoder_ctl(pe,__VA_ARGS__))
+  int expert=vc_chance(&r,2,3)?1+(int)vc_below(&r,9):0; if(expert){ if(MSH_CTL(OPUS_SET_EXPERT_FRAME_DURATION(OPUS_FRAMESIZE_2_5_MS+expert-1))!=OPUS_OK){ vc_viol("mshonour:set-failed","OPUS_SET_EXPERT_FRAME_DURATION refused"); goto out; } }
+  MSH_CTL(OPUS_SET_BITRATE(vc_range(&r,8000,64000)*ch)); if(vc_chance(&r,1,3)) MSH_CTL(OPUS_SET_VBR(0));
+  { vc_siggen g; vs_init(&g,vc_chance(&r,1,2)?VS_SPEECHLIKE:(int)vc_below(&r,VS_NFINITE),Fs,ch,0.5f,vc_next(&r)); float *in=(float*)malloc(sizeof(float)*5760*ch); static unsigned char pk[12000], one[4000]; int fidx=vc_below(&r,9); int nf=vc_range(&r,6,20);
+  for(int k=0;k<nf;k++){ if(!expert&&vc_chance(&r,1,4)) fidx=vc_below(&r,9);
+    int want= expert?vk_frame_samples(Fs,expert-1):vk_frame_samples(Fs,fidx); int sub=want, shorter=0; if(expert){ int q=(int)vc_below(&r,6); if(q<2){ int bigger=vk_frame_samples(Fs,8); if(bigger>want) sub=bigger; } else if(q==2&&expert>1){ sub=vk_frame_samples(Fs,(int)vc_below(&r,expert-1)); shorter=1; } }
+    vs_fill(&g,in,sub); int len= me?opus_multistream_encode_float(me,in,sub,pk,12000):opus_projection_encode_float(pe,in,sub,pk,12000); vc_count("mshonour_packets",1);
+    if(shorter){ if(len>=0){ vc_viol("mshonour:short-buffer-accepted","family %d: expert duration %d samples, %d supplied: encode returned %d",fam,want,sub,len); break; } vc_count("mshonour_short_buffer_refused",1); continue; }
+    if(len<=0){ vc_viol("mshonour:encode-failed","family %d ch %d streams %d Fs %d frame %d (supplied %d): encode returned %d",fam,ch,S,Fs,want,sub,len); break; }
+    int off=0, bad=0; for(int st=0;st<S&&!bad;st++){ rfc_pkt m; rfc_parse(pk+off,len-off,st!=S-1,&m); if(!m.valid){ vc_viol("mshonour:invalid-packet","stream %d of %d rejected by the RFC model",st,S); bad=1; break; }
+      int toc=pk[off]; int dur=m.count*rfc_spf(toc,Fs); if(dur!=want){ vc_viol("mshonour:duration","family %d stream %d: packet announces %d samples, requested %d (expert %d, supplied %d, Fs %d)",fam,st,dur,want,expert,sub,Fs); bad=1; break; }
+      int audio=0; for(int i=0;i<m.count;i++) if(m.sizes[i]>1) audio=1;
+      if(audio&&(app==OPUS_APPLICATION_RESTRICTED_LOWDELAY||want<Fs/100)&&rfc_mode(toc)!=2){ vc_viol("mshonour:mdct-only","family %d stream %d: %s packet in mode %d (toc %02x)",fam,st,want<Fs/100?"sub-10ms":"low-delay",rfc_mode(toc),toc); bad=1; break; }
+      if(st!=S-1){ int c2; int l=vk_from_selfdelim(pk+off,len-off,one,&c2); if(l<0){ vc_viol("mshonour:invalid-packet","self-delimited stream %d does not convert",st); bad=1; break; } off+=c2; } vc_count("mshonour_stream_packets",1); }
+    if(bad) break; vc_sig3((uint64_t)fam|((uint64_t)ch<<8),(uint64_t)expert|((uint64_t)(sub!=want)<<4)|((uint64_t)(Fs/8000)<<5),(uint64_t)app); }
+  free(in); }
+out:
+  if(me) opus_multistream_encoder_destroy(me); if(pe) opus_projection_encoder_destroy(pe);
+}
+
 int main(int argc,char **argv){
-  static const vc_mode_t modes[]={{"ctl",mode_ctl},{"msctl",mode_msctl},{"create",mode_create},{"honour",mode_honour},{0,0}};
+  static const vc_mode_t modes[]={{"ctl",mode_ctl},{"msctl",mode_msctl},{"create",mode_create},{"honour",mode_honour},{"mshonour",mode_mshonour},{0,0}};
   fail_at=-2; return vc_main(argc,argv,"C11",modes);
 }
